@@ -1,5 +1,6 @@
 (** C02 - every emitted byte stream is a well-formed box tree. *)
-From Muxide Require Export Model.Base Model.Boxes Model.Frag Spec.Bmff Spec.FragSpec Spec.Checks Proofs.BaseProofs Proofs.FragStructureProofs.
+From Muxide Require Export Model.Base Model.Boxes Model.Frag Spec.Bmff Spec.FragSpec Spec.Checks Proofs.BaseProofs Proofs.FragStructureProofs Proofs.StructureProofs.
+From Muxide Require Export Model.Writer Model.Api.
 Open Scope N_scope.
 
 Theorem C02_reader_recovers_every_built_box :
@@ -21,3 +22,20 @@ Theorem C02_media_segment_is_wellformed : forall (l : list frag_sample) (seq bas
   check_segment_structure (build_media_segment l seq base) = true.
 Proof. exact media_segment_is_wellformed. Qed.
 Print Assumptions C02_media_segment_is_wellformed.
+
+(* the movie box parses, through all containers, with exact tiling *)
+Theorem C02_moov_parses : forall v vt audio c m,
+  len (build_moov_box v vt audio c m) < 4294967296 ->
+  exists kids p, parse_forest 11 (build_moov_box v vt audio c m) = Some [Box T_moov p kids].
+Proof. exact moov_parses. Qed.
+Print Assumptions C02_moov_parses.
+
+(* END TO END: every progressive file the API can produce (any configuration, any history, both
+   layouts, fault-free sink, below 4 GiB) is a well-formed tree: ftyp first, one moov, at most one
+   mdat, one complete trak per configured stream, mutually consistent table counts *)
+Theorem C02_finished_file_is_wellformed : forall b m0 ops m rs s,
+  build b [] = inl m0 -> run m0 ops = (m, rs) -> In (RStats s) rs ->
+  len (sink_of m) < 4294967296 ->
+  check_file_structure (match m_audio m0 with Some _ => true | None => false end) (sink_of m) = true.
+Proof. exact finished_file_is_wellformed. Qed.
+Print Assumptions C02_finished_file_is_wellformed.
